@@ -30,19 +30,33 @@ def clause_property(clause):
     return None
 
 
-def run_scenarios(scenarios):
-    """Execute scenarios; returns (traces, kept_scenarios, machinery_errors)."""
+def run_scenarios(scenarios, construct_errors=None):
+    """Execute scenarios; returns (traces, kept_scenarios).  Scenarios whose explainer cannot be
+    constructed are reported through construct_errors (a list) and left out."""
     traces, kept = [], []
     for sc in scenarios:
-        tr, extra = G.run_scenario(sc)
+        try:
+            tr, extra = G.run_scenario(sc)
+        except G.ConstructError as e:
+            if construct_errors is not None:
+                construct_errors.append((sc, str(e)))
+            continue
         traces.append(tr)
         kept.append(sc)
     return traces, kept
 
 
-def validate(ctx, scenarios, wanted, label, workers=8):
+def validate(ctx, scenarios, wanted, label, workers=8, construct_violation=False):
     """wanted(clause, trace, call) -> bool: is this failing clause a violation of the calling property?"""
-    traces, kept = run_scenarios(scenarios)
+    cerr = []
+    traces, kept = run_scenarios(scenarios, cerr)
+    if cerr:
+        if construct_violation:
+            for sc, msg in cerr:
+                ctx.violation("trace.contract.constructible", "%s alpha=%s pass_dynamic=%s" % (sc.cls, sc.alpha is not None, sc.pass_dynamic),
+                              "constructor raised for scenario [%s]: %s" % (sc.key(), msg), {"scenario": sc.to_json()})
+        else:
+            ctx.skip("scenarios whose explainer could not be constructed (judged by C15)", len(cerr))
     fails, res = tracecheck.validate("Trace_IncExplainer", traces, lambda t: len(t["calls"]),
                                      tag=ctx.pid.lower() + "tr", workers=workers)
     ncalls = sum(len(t["calls"]) for t in traces)
